@@ -24,6 +24,7 @@ type idxDef struct {
 	FkTable string
 	FkCols  []int // column numbers in the target table (a key of it)
 	FkMode  int
+	Lower   bool // built on the lower case (_lower!) versions of its columns
 }
 
 type tblDef struct {
@@ -33,9 +34,40 @@ type tblDef struct {
 	Dom  [][]string // candidate values per column (token column excluded)
 }
 
+// colList is the column list of the create request: the stored columns plus the derived
+// lower case columns that indexes are built on.
+func (t *tblDef) colList() string {
+	cs := append([]string(nil), t.Cols...)
+	for _, ix := range t.Idx {
+		if ix.Lower {
+			for _, c := range ix.Cols {
+				cs = append(cs, t.Cols[c]+"_lower!")
+			}
+		}
+	}
+	return strings.Join(cs, ",")
+}
+
+// ixVals is fieldsOf for the values an index is built on (lower case for a _lower! index).
+func ixVals(r row, ix idxDef) string {
+	if !ix.Lower {
+		return fieldsOf(r, ix.Cols)
+	}
+	var sb strings.Builder
+	for i, c := range ix.Cols {
+		if i > 0 {
+			sb.WriteString("\x00\x01")
+		}
+		if v := r[c]; v != "" {
+			sb.WriteString(v[:1] + strings.ToLower(v[1:]))
+		}
+	}
+	return sb.String()
+}
+
 func (t *tblDef) admin() string {
 	var sb strings.Builder
-	fmt.Fprintf(&sb, "create %s (%s)", t.Name, strings.Join(t.Cols, ","))
+	fmt.Fprintf(&sb, "create %s (%s)", t.Name, t.colList())
 	for _, ix := range t.Idx {
 		sb.WriteString(" " + ixText(t, ix))
 	}
@@ -45,7 +77,11 @@ func (t *tblDef) admin() string {
 func ixText(t *tblDef, ix idxDef) string {
 	var cs []string
 	for _, c := range ix.Cols {
-		cs = append(cs, t.Cols[c])
+		if ix.Lower {
+			cs = append(cs, t.Cols[c]+"_lower!")
+		} else {
+			cs = append(cs, t.Cols[c])
+		}
 	}
 	s := map[byte]string{'k': "key", 'i': "index", 'u': "index unique"}[ix.Mode] + "(" + strings.Join(cs, ",") + ")"
 	return s
@@ -330,7 +366,7 @@ func (v *view) dupCheck(table string, r row, except row, onlyChanged bool) bool 
 		if ix.Mode == 'i' {
 			continue
 		}
-		if onlyChanged && except != nil && fieldsOf(r, ix.Cols) == fieldsOf(except, ix.Cols) {
+		if onlyChanged && except != nil && ixVals(r, ix) == ixVals(except, ix) {
 			continue // key unchanged by the update
 		}
 		if ix.Mode == 'u' && allEmpty(r, ix.Cols) {
@@ -344,12 +380,12 @@ func (v *view) dupCheck(table string, r row, except row, onlyChanged bool) bool 
 			}
 			continue
 		}
-		want := fieldsOf(r, ix.Cols)
+		want := ixVals(r, ix)
 		for _, o := range v.m[table] {
 			if except != nil && o.eq(except) {
 				continue
 			}
-			if fieldsOf(o, ix.Cols) == want {
+			if ixVals(o, ix) == want {
 				return true
 			}
 		}
